@@ -60,11 +60,20 @@ impl GC {
     /// This is automatically called once the Garbage Collector is dropped
     pub fn destroy(&mut self) {
         self.sweep();
+        #[cfg(feature = "verif")]
+        crate::verif::gc_event(crate::verif::GcEvent::Destroyed {
+            managed: &self.objects,
+        });
     }
 
     /// Runs a full mark & sweep cycle
     /// Only objects in the given roots are kept alive
     pub fn run(&mut self, roots: &[&[Object]]) {
+        #[cfg(feature = "verif")]
+        crate::verif::gc_event(crate::verif::GcEvent::RunStart {
+            roots,
+            managed: &self.objects,
+        });
         // Don't traverse roots if we have no traced objects
         if self.objects.is_empty() {
             return;
@@ -81,6 +90,11 @@ impl GC {
 
         // Sweep all unreachable objects
         self.sweep();
+        #[cfg(feature = "verif")]
+        crate::verif::gc_event(crate::verif::GcEvent::RunEnd {
+            roots,
+            managed: &self.objects,
+        });
     }
 
     /// Sweep all unmarked objects
